@@ -655,7 +655,34 @@ def c35(idx: Index, rep: Report, tier: str) -> None:
     rep.require_min(rule, "model_loops", 1)
 
 
-EXTRA3 = {"C35": c35, "C38": c38, "C36": c36, "C32": c32, "C33": c33, "C31": c31, "C17": c17, "C25": c25, "C20": c20, "C27": c27, "C28": c28}
+# ------------------------------------------------------------------------------------ C08
+def c08(idx: Index, rep: Report, tier: str) -> None:
+    """updated_minimize_action_costs(metric, new_to_old, …) reads the new-to-old map when it is called: the map must
+    be complete by then. A store into the map that can execute after the call means the metric was re-keyed from a
+    partial (or empty) map and the later actions have no cost."""
+    rule = "C08.6 T2 action-map-complete-before-the-metric-is-rekeyed"
+    n = 0
+    for f in idx.all_funcs():
+        if not f.module.name.startswith("unified_planning.engines.compilers."):
+            continue
+        cfg = cfg_of(f)
+        for node, c in cfg_nodes_with_call(cfg, "updated_minimize_action_costs"):
+            if len(c.args) < 2 or not isinstance(c.args[1], ast.Name):
+                continue
+            m = c.args[1].id
+            n += 1
+            stores = [nd for nd in cfg.nodes if nd.kind == "stmt" and nd.ast is not None and any((isinstance(a, ast.Assign) and any(isinstance(t, ast.Subscript) and norm(t.value) == m for t in a.targets)) or (isinstance(a, ast.Call) and isinstance(a.func, ast.Attribute) and a.func.attr in ("update", "setdefault") and norm(a.func.value) == m) for a in ast.walk(nd.ast))]
+            w = None
+            for st in stores:
+                if st is node:
+                    continue
+                w = w or cfg.path_avoiding(node, st, set())
+            rep.check(w is None, rule, f"{f.short}: `{m}` is not filled any more after the metric was re-keyed from it", f.loc(c), construct=f"{norm(c)[:70]}" + ("" if w is None else f" … then {norm(w[-1].ast)[:50]}"), detail="" if w is None else f"`{m}` still receives entries after updated_minimize_action_costs read it: the re-keyed MinimizeActionCosts misses the actions added later (with an empty map: every cost is lost)", function=f.qualname, path=path_text(w) if w else None)
+    rep.count("rekeying_calls", n)
+    rep.require_min(rule, "rekeying_calls", 5)
+
+
+EXTRA3 = {"C08": c08, "C35": c35, "C38": c38, "C36": c36, "C32": c32, "C33": c33, "C31": c31, "C17": c17, "C25": c25, "C20": c20, "C27": c27, "C28": c28}
 
 
 def run_extra3(prop: str, idx: Index, rep: Report, tier: str) -> None:
